@@ -511,6 +511,10 @@ class Discharger:
             lb, rb = len_term_bounds(a, facts, l, p), len_term_bounds(a, facts, r, p)
             if lb and rb and isinstance(lb[0], int) and isinstance(rb[1], int) and lb[0] >= rb[1]:
                 return 'D7', 'minuend >= %d over all impls, subtrahend <= %d' % (lb[0], rb[1])
+            from .common import cmp_guard
+            g = cmp_guard(a, bi, l, r)
+            if g['guards'] >= 1 and not g['lt']:
+                return 'D5', 'subtraction dominated by a comparison guard that excludes minuend < subtrahend'
             return None
         if kind == 'assert:overflow:Add':
             l, r = a.val_op(t['ops'][0], p), a.val_op(t['ops'][1], p)
@@ -535,6 +539,8 @@ class Discharger:
                 inner = idx[1][2][0]
                 if inner[0] == 'call' and inner[1] == 'core::num::<impl usize>::checked_sub' and inner[2][0] == ('len', whole):
                     return 'D5', 'split_at(len.checked_sub(k)?) — index <= len on the Some path'
+            if idx[0] == 'bin' and idx[1] == 'Sub' and idx[2] == ('len', whole):
+                return 'D5', 'split_at(len - k): index <= len (the subtraction itself is a separate site)'
             return None
         if name in ('unwrap', 'expect'):
             return self.d_unwrap(key, a, s)
@@ -689,6 +695,12 @@ class Discharger:
         # open(): tag copy from split_at(ct, len - Nt).1
         if src[0] == 'field' and src[1] == '1' and src[2][0] == 'call' and src[2][1].endswith('::split_at'):
             idx = src[2][2][1]
+            if idx[0] == 'bin' and idx[1] == 'Sub' and idx[2] == ('len', src[2][2][0]):
+                k = idx[3]
+                if k[0] == 'call' and k[1] == 'Serializable::size' and k[4]:
+                    raws = [im['types']['OutputSize']['raw'] for im in facts.impls if im.get('trait') == 'Serializable' and im['self_ty'] == k[4][2]]
+                    if raws and n_dst is not None and (n_dst == raws[0] or n_dst == typenum_usize(raws[0])):
+                        return 'D5', 'second half of split_at(len - Nt) has Nt bytes = the tag buffer'
             if idx[0] == 'okval' and idx[1][0] == 'call' and idx[1][1] == 'core::option::Option::ok_or':
                 inner = idx[1][2][0]
                 k = inner[2][1] if inner[0] == 'call' and len(inner[2]) == 2 else None
